@@ -50,6 +50,7 @@ type FuncCtx struct {
 	name     string // display name pkg.Func
 	entry    *State
 	boxed    map[types.Object]bool
+	chanCalls map[ast.Node]*ast.CallExpr
 	frames   []*frame
 	defers   []deferred
 	loopOrd  map[ast.Node]int
@@ -281,7 +282,14 @@ func (fc *FuncCtx) prepare() {
 				callN[name]++
 				fc.callOrd[x] = callSite{name, callN[name]}
 			}
+		case *ast.SendStmt:
+			callN["send"]++
+			fc.chanCall(x, x.Arrow, "send", callN["send"])
 		case *ast.UnaryExpr:
+			if x.Op == token.ARROW {
+				callN["recv"]++
+				fc.chanCall(x, x.OpPos, "recv", callN["recv"])
+			}
 			if x.Op == token.AND {
 				if id, ok := ast.Unparen(x.X).(*ast.Ident); ok {
 					if obj := fc.info.Uses[id]; obj != nil {
@@ -797,9 +805,12 @@ func (fc *FuncCtx) execStmt(s ast.Stmt, st *State) *State {
 	case *ast.LabeledStmt:
 		fc.unsupp(s, "labelled statement")
 	case *ast.SelectStmt:
-		fc.unsupp(s, "select")
+		return fc.execSelect(x, st)
 	case *ast.SendStmt:
-		fc.unsupp(s, "channel send")
+		ch := fc.eval(x.Chan, st)
+		v := fc.eval(x.Value, st)
+		fc.chanOp("send", x, st, ch, fc.info.TypeOf(x.Chan), v)
+		return st
 	case *ast.TypeSwitchStmt:
 		fc.unsupp(s, "type switch")
 	}
@@ -1159,6 +1170,15 @@ func (fc *FuncCtx) runDeferred(d deferred, st *State) {
 		fc.defers = saved
 		return
 	}
+	if id, ok := d.call.Fun.(*ast.Ident); ok {
+		if b, isB := fc.info.Uses[id].(*types.Builtin); isB {
+			if b.Name() == "close" && len(d.args) == 1 {
+				fc.chanOp("close", d.call, st, d.args[0], fc.info.TypeOf(d.call.Args[0]), nil)
+				return
+			}
+			fc.unsupp(d.call, "deferred builtin %s", b.Name())
+		}
+	}
 	fc.callWith(d.call, st, d.recv, d.args, true)
 }
 
@@ -1215,6 +1235,8 @@ func lineOf(p string) int {
 // comma-ok forms: v, ok := m[k] and v, ok := x.(T)
 func (fc *FuncCtx) isCommaOk(x ast.Expr) bool {
 	switch n := ast.Unparen(x).(type) {
+	case *ast.UnaryExpr:
+		return n.Op == token.ARROW
 	case *ast.IndexExpr:
 		_, isMap := fc.info.TypeOf(n.X).Underlying().(*types.Map)
 		return isMap
@@ -1227,6 +1249,11 @@ func (fc *FuncCtx) isCommaOk(x ast.Expr) bool {
 func (fc *FuncCtx) evalCommaOk(x ast.Expr, st *State) []*Value {
 	e := fc.e
 	switch n := ast.Unparen(x).(type) {
+	case *ast.UnaryExpr:
+		if n.Op == token.ARROW {
+			ch := fc.eval(n.X, st)
+			return fc.chanOp("recv", n, st, ch, fc.info.TypeOf(n.X), nil)
+		}
 	case *ast.IndexExpr:
 		m := fc.eval(n.X, st)
 		k := fc.eval(n.Index, st)
@@ -1265,4 +1292,98 @@ func isEmptysetCall(x SExpr) bool {
 	}
 	id, ok := c.Fun.(*SIdent)
 	return ok && id.Name == "emptyset" && len(c.Args) == 0
+}
+
+// ---------------------------------------------------------------- channel operations
+//
+// A channel operation is modelled as a call of an ASSUMED, caller-specific contract
+//   extern chan:recv@F   params ch          results v, ok
+//   extern chan:send@F   params ch, v
+//   extern chan:close@F  params ch
+// written next to F's contract.  The channel itself is an opaque value; what an operation
+// means (which event arrives, what the consumer sees) is carried by ghost state named in
+// those contracts.  This is a SEQUENTIAL reading of one goroutine's code: blocking,
+// interleavings with other goroutines and deadlock are not modelled (recorded as an assumption).
+
+func (fc *FuncCtx) chanCall(node ast.Node, pos token.Pos, kind string, n int) *ast.CallExpr {
+	if c, ok := fc.chanCalls[node]; ok {
+		return c
+	}
+	if fc.chanCalls == nil {
+		fc.chanCalls = map[ast.Node]*ast.CallExpr{}
+	}
+	c := &ast.CallExpr{Fun: &ast.Ident{NamePos: pos, Name: kind}, Lparen: pos, Rparen: pos}
+	fc.chanCalls[node] = c
+	fc.callOrd[c] = callSite{kind, n}
+	return c
+}
+
+func (fc *FuncCtx) chanOp(kind string, node ast.Node, st *State, ch *Value, chT types.Type, arg *Value) []*Value {
+	e := fc.e
+	ct0, _ := chT.Underlying().(*types.Chan)
+	if ct0 == nil {
+		fc.unsupp(node, "channel operation on %s", chT)
+	}
+	var c *ast.CallExpr
+	if call, ok := node.(*ast.CallExpr); ok {
+		c = call // close(ch): the builtin call itself is the call site
+	} else if c = fc.chanCalls[node]; c == nil {
+		fc.unsupp(node, "channel operation outside the prepared body")
+	}
+	_, callerKey := funcKey(fc.fn)
+	ct := e.contractFor("chan", kind+"@"+callerKey)
+	if ct == nil {
+		fc.unsupp(node, "channel %s without a contract chan:%s@%s", kind, kind, callerKey)
+	}
+	e.assumed["channel operations are read sequentially (contract chan:"+kind+"@"+callerKey+"): blocking, interleavings and deadlock are not modelled"] = true
+	params := []*types.Var{types.NewParam(token.NoPos, nil, "ch", chT)}
+	args := []*Value{ch}
+	var results []*types.Var
+	switch kind {
+	case "send":
+		params = append(params, types.NewParam(token.NoPos, nil, "v", ct0.Elem()))
+		args = append(args, fc.convertTo(arg, e.shapeOf(ct0.Elem())))
+	case "recv":
+		results = []*types.Var{types.NewParam(token.NoPos, nil, "v", ct0.Elem()), types.NewParam(token.NoPos, nil, "ok", types.Typ[types.Bool])}
+	}
+	sig := types.NewSignatureType(nil, nil, nil, types.NewTuple(params...), types.NewTuple(results...), false)
+	fn := types.NewFunc(token.NoPos, nil, kind, sig)
+	res := fc.applyContract(c, st, ct, fn, sig, nil, args)
+	if kind == "recv" {
+		// a receive from a closed channel yields the zero value
+		z := e.zeroValue(res[0].Sh)
+		for i := range res[0].L {
+			st.assume(imp(not(res[1].T()), eq(res[0].L[i], z.L[i])))
+		}
+	}
+	return res
+}
+
+// execSelect supports the one stylised form that occurs in the code under contract: a select
+// with a single communication clause and no default, which is that communication followed by
+// the clause body.
+func (fc *FuncCtx) execSelect(x *ast.SelectStmt, st *State) *State {
+	if len(x.Body.List) != 1 {
+		fc.unsupp(x, "select with %d clauses", len(x.Body.List))
+	}
+	cc := x.Body.List[0].(*ast.CommClause)
+	if cc.Comm == nil {
+		fc.unsupp(x, "select with only a default clause")
+	}
+	fr := &frame{kind: "switch"}
+	fc.frames = append(fc.frames, fr)
+	st = fc.execStmt(cc.Comm, st)
+	var out *State
+	if st != nil {
+		out = fc.execBlock(&ast.BlockStmt{List: cc.Body}, st)
+	}
+	fc.frames = fc.frames[:len(fc.frames)-1]
+	outs := append([]*State{}, fr.brk...)
+	if out != nil {
+		outs = append(outs, out)
+	}
+	if len(outs) == 0 {
+		return nil
+	}
+	return fc.e.merge(outs)
 }
